@@ -357,7 +357,9 @@ def predicates(ctx: Ctx) -> None:
             break
     # corpus: the boundary draw u == exp(-dE/T) and a failed downhill step
     metropolis_predicate(ctx, [(0.0, 1.0, 1.0, float(np.exp(-1.0))), (0.0, 1.0, 1.0, float(np.nextafter(np.exp(-1.0), 0))),
-                               (1.0, 0.0, 1.0, 0.999), (0.0, 0.0, 1.0, 0.999), (0.0, 1.0, 1e-6, 0.0)])
+                               (1.0, 0.0, 1.0, 0.999), (0.0, 0.0, 1.0, 0.999), (0.0, 1.0, 1e-6, 0.0),
+                               # a quench (temperature exactly zero): downhill is downhill
+                               (1.0, 0.0, 0.0, 0.5), (2.1043, -1.0316, 0.0, 0.0), (0.0, -(2.0 ** -40), 0.0, 0.999)])
     corpus = bh.make_script(rng, "standard", ("down", "rej", "fail", "rej", "fail", "up"))
     scripts = [corpus] + bh.scripted_corpus(ctx, "all" if deep else "subsets")
     if not deep:
